@@ -969,6 +969,112 @@ class _SubCtx:
             self.ctx.ok('ds9 writer', note)
 
 
+VISUAL_PROBES = [
+    ('circle', 'CirclePixelRegion', 'color=red width=2 dash=1 dashlist=8 3 fill=1 font="helvetica 12 bold italic"'),
+    ('circle', 'CirclePixelRegion', 'dash=1'),
+    ('circle', 'CirclePixelRegion', 'font="courier 10 normal roman" color=#00ff00'),
+    ('box', 'RectanglePixelRegion', 'fill=0 dash=0 width=1 color=blue'),
+    ('ellipse', 'EllipsePixelRegion', 'fill=1 width=3'),
+    ('polygon', 'PolygonPixelRegion', 'color=cyan dash=1 dashlist=4 2'),
+    ('point', 'PointPixelRegion', 'point=cross 14 color=blue width=3'),
+    ('point', 'PointPixelRegion', 'point=diamond'),
+    ('line', 'LinePixelRegion', 'color=green width=2 dash=1'),
+    ('text', 'TextPixelRegion', 'color=red font="times 14 bold roman" textangle=30'),
+    ('annulus', 'CircleAnnulusPixelRegion', 'color=magenta width=2'),
+]
+
+
+def _dict_items(d):
+    return sorted((k, show(d.get(k), 200)) for k in d.keys())
+
+
+def r10(ctx):
+    """visual metadata is a fixed point of parse -> serialise -> parse: the reader's metadata pipeline (lexer, raw
+    validation, meta/visual split, translation to matplotlib keys, RegionMeta/RegionVisual construction), the writer's
+    translation back to DS9 keys and the reader's pipeline again are partially evaluated on probe metadata strings; the
+    second parse must give the same meta and visual dictionaries as the first (region equality compares both)."""
+    m = ctx.model
+    par, make, lexers, raw, rmod = ds9.reader_funcs(m)
+    lex = ds9.meta_lexer(m)
+    meta_fn, mkstr = _meta_writer(ctx)
+
+    def fn_calling(mod, callee_test, what):
+        c = [f for f in mod.functions.values() if callee_test(f)]
+        ctx.need(len(c) == 1, 'ds9', f'{what} not identified ({[x.qualname for x in c]})')
+        return c[0]
+    merge = fn_calling(rmod, lambda f: len(f.node.args.args) == 4 and sum(
+        1 for c in calls_in(f.node) if (call_name(c) or '').endswith('.update')) >= 3, 'raw-metadata merge function')
+    # split and translation are the two functions the region builder applies to raw_meta, in that order
+    callees = []
+    for st in stmts_of(make.node):
+        if isinstance(st, ast.Assign) and isinstance(st.value, ast.Call):
+            for f in m.resolve_call(make, st.value) or ():
+                if f.module != make.module and f not in callees:
+                    callees.append(f)
+    ctx.need(len(callees) >= 2, make.qualname, 'metadata split/translation calls not found')
+    split, trans = callees[0], callees[1]
+    metacls = m.cls('Meta')
+    init = metacls.methods.get('__init__')
+
+    def construct(cname, d, where):
+        """RegionMeta(d) / RegionVisual(d): the entries stored through the validating __setitem__."""
+        stores = {}
+        ev = Evaluator(m, hooks={'super:__setitem__': lambda e, a, k: (stores.__setitem__(a[1].v if isinstance(a[1], Const) else show(a[1]), a[2]), Const(None))[1]})
+        o = Obj(cname, {}, 'self', m.cls(cname))
+        out = ev.run(init, [o, d], {})
+        definite = [n for pc, n, _ in out.raises if not [c for c in pc if not (isinstance(c, Const) and c.v is True)]]
+        if definite:
+            return None, f'{cname}({show(d, 160)}) raises {definite[0]} {where}'
+        if out.raises:
+            raise AnalysisError('C09.R10', where, f'{cname} construction not reducible: {show(d, 120)}')
+        return DictV([stores]), None
+
+    def parse(shape, text):
+        ev = Evaluator(m)
+        E = lambda: DictV([{}])           # noqa: E731
+        d = ev.call(lex, [Const(text)], {})
+        rawm = ev.call(merge, [E(), E(), E(), d], {})
+        ctx.need(isinstance(rawm, DictV) and not rawm.has_symbolic(), f'parse `{text}`', f'raw metadata not reducible: {show(rawm, 160)}')
+        mv = ev.call(split, [rawm], {})
+        ctx.need(isinstance(mv, Tup) and len(mv.items) == 2, split.qualname, 'does not return (meta, visual)')
+        vis = ev.call(trans, [Const(shape), mv.items[1]], {})
+        ctx.need(isinstance(vis, DictV) and not vis.has_symbolic(), f'parse `{text}`', f'visual metadata not reducible: {show(vis, 200)}')
+        meta = mv.items[0]
+        if shape == 'text' and 'text' in meta.keys():
+            meta.pop('text')
+        M, err = construct('RegionMeta', meta, f'when parsing `{text}`')
+        if err:
+            return None, None, err
+        V, err = construct('RegionVisual', vis, f'when parsing `{text}`')
+        return M, V, err
+
+    for shape, cname, text in VISUAL_PROBES:
+        construct_name = f'{shape}: {text}'
+        M1, V1, err = parse(shape, text)
+        if err:
+            ctx.bad(construct_name, 'parse-raises', err, trans.loc())
+            continue
+        ev = Evaluator(m)
+        flds = {'meta': M1.copy(), 'visual': V1.copy()}
+        if shape == 'text':
+            flds['text'] = Const('t')
+        d = ev.call(meta_fn, [Obj(cname, flds, 'region', m.cls(cname)), Const(shape)], {})
+        ctx.need(isinstance(d, DictV) and not d.has_symbolic(), construct_name, f'writer metadata not reducible: {show(d, 200)}')
+        line = render(ev.call(mkstr, [d], {}), {})
+        M2, V2, err = parse(shape, line)
+        if err:
+            ctx.bad(construct_name, 'reparse-raises', f'`{text}` is parsed, written as `{line}`, and {err}', meta_fn.loc())
+            continue
+        if _dict_items(M1) != _dict_items(M2) or _dict_items(V1) != _dict_items(V2):
+            a, b = dict(_dict_items(V1) + _dict_items(M1)), dict(_dict_items(V2) + _dict_items(M2))
+            diff = {k: (a.get(k), b.get(k)) for k in sorted(set(a) | set(b)) if a.get(k) != b.get(k)}
+            ctx.bad(construct_name, 'visual-fixed-point',
+                    f'`{text}` is parsed to visual {dict(_dict_items(V1))}, written as `{line}`, and parsed again with '
+                    f'{diff} (first parse, second parse): parse -> serialise -> parse is not a fixed point', meta_fn.loc())
+        else:
+            ctx.ok(construct_name, f'written as `{line}`; second parse gives the same {len(V1.keys())} visual keys')
+
+
 RULES = [
     RuleDef('R1', 'token-level writer∘reader round trip per class (names, slots, inverse constants)', r1, 22),
     RuleDef('R2', 'reader lexers: whole-token float(), suffix table, pixel shift (shared with C10.R3/R3b)', r2, 6),
@@ -978,5 +1084,6 @@ RULES = [
     RuleDef('R6', 'deterministic output', r6, 1),
     RuleDef('R7', 'serialisers do not mutate the regions', r7, 2),
     RuleDef('R9', 'list-level assembly: global/own metadata and frame lines recover every record', r9, 4),
+    RuleDef('R10', 'visual metadata: parse -> serialise -> parse fixed point on probe metadata', r10, 11),
     RuleDef('R8', 'text and tags: written delimiters are the ones lexed; free text is never coerced; bound to the region', r8, 5),
 ]
